@@ -234,6 +234,22 @@ func NewHistoryCase(g *Gen, id int) (*Case, []string, string) {
 		probeData = `(DFactory (FErr "` + code + `" ""))`
 	}
 	n := probe.node
+	var probeStructs []*Node
+	structNodes(n, &probeStructs)
+	if len(probeStructs) > 0 && probe.factory == nil && g.R.P(25) {
+		// the schema object's very first execution is on another destination type (the same fields laid
+		// out in the opposite order): nothing of that may stay behind in the schema
+		altT := TypeOfAlt(n)
+		altDest := reflect.Zero(altT)
+		if probe.validate {
+			altDest = g.DestValue(n, altT, false)
+		}
+		var d any
+		if !probe.validate {
+			d = probe.in.Go(nil)
+		}
+		Exec(probe.schema, probe.validate, d, copyDest(altT, altDest), &Recorder{}, probe.opts...)
+	}
 	internals.ClearPools()
 	ref := probe.run()
 	refCanon := fullCanon(&ref, n)
